@@ -938,7 +938,10 @@ func main() {
 				}
 			}
 		}
-		for _, l := range leaves2() {
+		for _, l := range naryLeaves3(true) {
+			visit(l)
+		}
+		for _, l := range append(leaves2(), naryLeaves2()...) {
 			if l.name == c.Solid {
 				checkLeaf2(r, l)
 				n++
@@ -1009,8 +1012,13 @@ func main() {
 		_ = count
 		r.Set("depth2_roots_3d", len(jobs))
 	})
+	r.Isolate("n-ary", func() {
+		ls := naryLeaves3(full)
+		ev.Parallel(len(ls), 0, func(i int) { checkLeaf3(r, ls[i]) })
+		r.Set("nary_trees_3d", len(ls))
+	})
 	r.Isolate("2d", func() {
-		l2 := leaves2()
+		l2 := append(leaves2(), naryLeaves2()...)
 		ev.Parallel(len(l2), 0, func(i int) { checkLeaf2(r, l2[i]) })
 		r.Set("solids_2d", len(l2))
 	})
